@@ -11,9 +11,21 @@
  *   goto l c | move d r | print <hex> | printn <hex> n | erasech n moveend(0 no,1 yes,-1 maybe) | clear
  *   scroll top left lines cols downward rightward
  *   setpen [bg=N] [rv=0|1] | chpen [bg=N] [rv=0|1]
+ *   printf <hex> [d]           tickit_term_printf(tt, "%s", text) / (tt, "%s%d", text, d): the formatted-output entry
+ *                              point (tickit_term_vprintf underneath), as opposed to print / printn
+ *   outbuf N                   tickit_term_set_output_buffer(tt, N) (0 = unbuffered again)
+ *   flush                      tickit_term_flush
+ *   pause | resume             tickit_term_pause / tickit_term_resume
+ *   stop                       tickit_term_teardown (the driver's stop, then a flush)
+ *   start                      tickit_term_set_output_func with the same function again: the old one is told
+ *                              (NULL, 0) and a stopped driver is started again (start-up string once more)
  *
+ * The bytes of an observation are exactly those the OUTPUT FUNCTION received during the operation, in order (with an
+ * output buffer that is what the terminal sees, not what the driver wrote).
  * Observation: `<hex bytes> ret=<r>`; for `new`: `<hex start bytes> caps=<slrm> <colon> <rgb8> size=<L> <C>
- * modes=<cursorvis> <cursorblink>`; for `resize`: `<hex bytes> size=<L>x<C>` (as tickit_term_get_size reports it).
+ * modes=<cursorvis> <cursorblink>`; for `resize`: `<hex bytes> size=<L>x<C>` (as tickit_term_get_size reports it);
+ * for `resume`: `<hex bytes> slrm=<xterm.cap_slrm as getctl reports it afterwards>`; for `start`: `<hex bytes>
+ * closed=<number of (NULL, 0) calls of the output function during the operation> slrm=<…>`.
  */
 #define HCOMMON_MAIN
 #include "hcommon.h"
@@ -112,8 +124,40 @@ static void engine_op(int argc, char **argv)
     return;
   }
 
+  if(strcmp(op, "resume") == 0 && argc == 1) {
+    tickit_term_resume(tt);
+    obs_hex(outbuf, outlen);
+    obs(" slrm=%d", getcap("xterm.cap_slrm"));
+    return;
+  }
+  if(strcmp(op, "start") == 0 && argc == 1) {
+    out_closed = 0;
+    tickit_term_set_output_func(tt, output, NULL);
+    obs_hex(outbuf, outlen);
+    obs(" closed=%d slrm=%d", out_closed, getcap("xterm.cap_slrm"));
+    return;
+  }
+
   int ret = 1;
-  if(strcmp(op, "goto") == 0 && argc == 3)
+  if(strcmp(op, "pause") == 0 && argc == 1)
+    tickit_term_pause(tt);
+  else if(strcmp(op, "stop") == 0 && argc == 1)
+    tickit_term_teardown(tt);
+  else if(strcmp(op, "flush") == 0 && argc == 1)
+    tickit_term_flush(tt);
+  else if(strcmp(op, "outbuf") == 0 && argc == 2) {
+    long n = atol(argv[1]);
+    if(n < 0 || n > 1000000) { obs("bad-op"); return; }
+    tickit_term_set_output_buffer(tt, (size_t)n);
+  }
+  else if(strcmp(op, "printf") == 0 && (argc == 2 || argc == 3)) {
+    unsigned char *b; long n = hex_decode(argv[1], &b);
+    if(n < 0) { obs("bad-op"); return; }
+    if(argc == 3) tickit_term_printf(tt, "%s%d", (char *)b, atoi(argv[2]));
+    else          tickit_term_printf(tt, "%s", (char *)b);
+    free(b);
+  }
+  else if(strcmp(op, "goto") == 0 && argc == 3)
     ret = tickit_term_goto(tt, atoi(argv[1]), atoi(argv[2]));
   else if(strcmp(op, "move") == 0 && argc == 3)
     tickit_term_move(tt, atoi(argv[1]), atoi(argv[2]));
